@@ -49,6 +49,17 @@ func wsImplRead(c *h.Ctx, isServer, deflate bool, limit int64, rbuf int, stream 
 		}
 	}()
 	conn := ws.VerifNewConn(fake, isServer, rbuf, 256, deflate)
+	written := fake.Written
+	if !isServer && wsImplReadN%3 == 0 {
+		// the client-role connection as an application gets it: from Dial, the server's first frames arriving in one
+		// piece with its handshake response
+		if dc, wr, err := wsDialed(rbuf, 256, deflate, stream); err == nil {
+			conn, written = dc, wr
+		} else {
+			out.err = "dial: " + err.Error()
+			return out
+		}
+	}
 	conn.SetReadLimit(limit)
 	// what the application did to the WRITING side before (a write deadline that has since passed, one far in the
 	// future, none) is not the reader's business: its replies — pongs, the close frames — go out under their own deadline
@@ -69,7 +80,7 @@ func wsImplRead(c *h.Ctx, isServer, deflate bool, limit int64, rbuf int, stream 
 		}
 		out.msgs = append(out.msgs, fmt.Sprintf("%d.%s", t, h.Hex(p)))
 	}
-	wire := fake.Written()
+	wire := written()
 	out.sticky = true
 	for i := 0; i < 2; i++ {
 		_, p, err := conn.ReadMessage()
@@ -77,7 +88,7 @@ func wsImplRead(c *h.Ctx, isServer, deflate bool, limit int64, rbuf int, stream 
 			out.sticky = false
 		}
 	}
-	if len(fake.Written()) != len(wire) {
+	if len(written()) != len(wire) {
 		out.sticky = false
 	}
 	out.replies, _ = wsReplies(c, isServer, wire, "replies_wellformed", input)
